@@ -13,6 +13,7 @@ from pathlib import Path
 from typing import DefaultDict, Iterable
 
 from . import _dsdl_definition, _error, _serializable
+from ._data_type_builder import DataTypeCollisionError
 from ._dsdl import ReadableDSDLFile, PrintOutputHandler, SortedFileList
 from ._dsdl import file_sort as dsdl_file_sort
 from ._dsdl import normalize_paths_argument_to_list
@@ -470,6 +471,13 @@ def _ensure_minor_version_compatibility(types: list[_serializable.CompositeType]
             for a in subject_to_check:
                 for b in subject_to_check:
                     if a is not b:
+                        if a.version.minor == b.version.minor:
+                            # Two files may spell the same name and version, e.g., Foo.1.0.dsdl next to 7509.Foo.1.0.dsdl
+                            # or next to the legacy Foo.1.0.uavcan. If their contents differ, neither can be preferred.
+                            raise DataTypeCollisionError(
+                                "This definition has the same name and version as %s" % b.source_file_path,
+                                path=a.source_file_path,
+                            )
                         _ensure_minor_version_compatibility_pairwise(a, b)
 
 
